@@ -1,17 +1,20 @@
 CONSTANTS
   ShapeNames <- AllShapes
-  Variants = {0, 1, 2}
+  Variants = {0, 1, 2, 3}
   LaxTolerated = {"nonMinimalInteger", "emptyOID", "printableIsLatin1", "printableIsT61"}
   AlwaysRejected = {"nonMinimalLength", "leadingZeroLength", "indefiniteLength", "nonMinimalTag", "truncated",
                     "wrongTag", "requiredFieldMissing", "explicitEmpty", "emptyInteger", "integerTooLarge",
                     "oidTruncatedArc", "oidArcTooLarge", "printableIsNeither", "badUTF8", "badIA5", "badNumeric",
                     "badBool", "boolTwoOctets", "badBitStringPadding", "bitStringPadTooBig", "emptyBitString", "badTime"}
   DeliberateDiff = {"oidArcLeading80", "highTagLeading80", "genTimeFraction", "setOfUnsorted"}
-  Benign = {"rawInnerNonDER", "trailingInSequence"}
+  Benign = {"rawInnerNonDER", "trailingInSequence", "utcNoSeconds"}
   AncestorDefects <- AllDefects
   Wraps <- Wraps1
+  TimeBoundaries = {1950, 2050}
+  TimeMinutes <- MCTimeMinutes
+  TimeOffsets <- MCTimeOffsets
 INIT Init
 NEXT Next
 INVARIANTS TypeOK LaxSuperset LaxOnlyDocumented LaxPropagates AncestorDepth LaxIsLocal StrictEqUpstream DiffsAreDiffs
-           Rejected BenignAccepted RoundTrip LengthRoundTrip LengthFormsRejected RawContentKeeps Export
+           Rejected BenignAccepted RoundTrip TimeRoundTripDER ZoneOffsetRoundTrip TimeFormsAccepted TagByWrittenYear LengthRoundTrip LengthFormsRejected RawContentKeeps Export
 CHECK_DEADLOCK FALSE
